@@ -148,6 +148,10 @@ MODELS = [
     # of the key is in the key palette), auto-recognised and permissive
     ('under', Z.Under, [Z.Under], [M(a=I(1), b_c=I(2), l_s=Q(I(3)))]),
     ('under_perm', Z.UnderPerm, [Z.UnderPerm], [M(a=I(1), b_c=I(2))]),
+    # both spellings in the base document, the dashed one (an extra
+    # attribute) first and of another type
+    ('under_x', Z.UnderX, [Z.UnderX], [
+        M(('b-c', S('x')), ('a', I(1)), ('b_c', I(2)), ('more', S('m')))]),
     # ---- a class that is abstract because it lists ABC (not first)
     ('figs', Z.Draw, [Z.Draw, Z.Fig, Z.Poly, Z.Tri], [
         M(figs=Q(M(name=S('f')), M(name=S('t'), sides=I(3), kind=S('k'))),
